@@ -26,9 +26,19 @@ def shard(sh: Shard, seed, wseed, cases):
             if c.get("follow"):
                 expanded.append({"start": c["follow"][0], "length": c["follow"][1], "fault": {"kind": "none"}, "id": f"{c['id']}f"})
                 sh.count("threaded_follow_up_transfers")
+        twin = None
         for case in expanded:
             cr = rng("C01tcase", seed, wseed, case["id"])
             start, length = case["start"], case["length"]
+            if case.get("nested") or case.get("twin"):
+                if case.get("twin") and twin is None:
+                    twin = rig.second_client()
+                    if twin is None:
+                        sh.count("threaded_twin_could_not_connect")
+                        continue
+                if not special_case(sh, rig, twin, case, cr):
+                    return
+                continue
             S, B0 = make_blocks(cr, cr.choice(["random", "tags"]))
             spa.struct.set_status_block(B0)
             rig.set_sim_block(S)
@@ -159,6 +169,105 @@ def shard(sh: Shard, seed, wseed, cases):
         rig.close()
 
 
+def special_case(sh: Shard, rig, twin, case, cr):
+    """Two transfers whose lives overlap: (nested) the second is started by a client observer from
+    inside the change notification of the first one's install - what GeckoSpa.refresh() called from a
+    user callback does; (twin) it runs on a second client object of the same process against the
+    same spa.  Both must satisfy the install-or-nothing oracle for their own range."""
+    from geckolib.driver import GeckoStatusBlockProtocolHandler
+    from vlib.vthreads import Deadlock, Stuck
+
+    spa, s = rig.spa, rig.s
+    start, length = case["start"], case["length"]
+    st2, ln2 = case.get("nested") or case["twin"]
+    other = spa if case.get("nested") else twin
+    S, B0 = make_blocks(cr, "random")
+    B0b = bytes((x + 7) % 256 if (x + 7) % 256 != S[i] else (x + 8) % 256 for i, x in enumerate(B0))
+    spa.struct.set_status_block(B0)
+    if other is not spa:
+        other.struct.set_status_block(B0b)
+    rig.set_sim_block(S)
+    installs = {id(spa.struct): [], id(other.struct): []}
+    origs = {}
+    for st_ in {id(spa.struct): spa.struct, id(other.struct): other.struct}.values():
+        def tapped(offset, segment, st_=st_, orig=st_.replace_status_block_segment):
+            installs[id(st_)].append((offset, len(segment)))
+            return orig(offset, segment)
+
+        origs[id(st_)] = st_
+        st_.replace_status_block_segment = tapped
+    req1 = GeckoStatusBlockProtocolHandler.request(spa.get_and_increment_sequence_counter(False), start, length, parms=spa.sendparms)
+    reqs = [req1]
+    watched = []
+    if case.get("nested"):
+        fired = []
+
+        def on_change(sender, old, new):
+            if not fired:
+                fired.append(sender.tag if hasattr(sender, "tag") else repr(sender))
+                req2 = GeckoStatusBlockProtocolHandler.request(spa.get_and_increment_sequence_counter(False), st2, ln2, parms=spa.sendparms)
+                reqs.append(req2)
+                spa.struct.retry_request(spa, req2, spa.sendparms)
+
+        for acc in spa.struct.accessors.values():
+            pos = getattr(acc, "pos", None)
+            if pos is not None and start <= pos < start + length and len(watched) < 8:
+                acc.watch(on_change)
+                watched.append(acc)
+    try:
+        spa.struct.retry_request(spa, req1, spa.sendparms)
+        if case.get("twin"):
+            s.sleep(case["delta"])
+            req2 = GeckoStatusBlockProtocolHandler.request(other.get_and_increment_sequence_counter(False), st2, ln2, parms=other.sendparms)
+            reqs.append(req2)
+            other.struct.retry_request(other, req2, other.sendparms)
+        budget = 3 * ((req1._retry_count + 2) * (req1._timeout_in_seconds + 1) + 10)
+        done = s.run_until(lambda: len(reqs) == 2 and req1 not in spa._receive_handlers and reqs[1] not in other._receive_handlers, budget)
+    except (Deadlock, Stuck) as e:
+        sh.inconc(f"{type(e).__name__}")
+        return False
+    finally:
+        for acc in watched:
+            try:
+                acc.unwatch(on_change)
+            except Exception:
+                pass
+    rig.quiesce(settle=0.3, limit=5)
+    for st_ in origs.values():
+        del st_.replace_status_block_segment
+    sh.evaluations += 1
+    kind = "nested" if case.get("nested") else "twin"
+    wit = {"class": "GeckoStructure", "kind": kind, "first": (start, length), "second": (st2, ln2), "delta": case.get("delta"), "installs_first_structure": installs[id(spa.struct)], "installs_second_structure": installs[id(other.struct)]}
+    if not done:
+        if len(reqs) < 2:
+            sh.count("threaded_nested_observer_never_fired")
+            return True
+        sh.violation(f"C01:threaded:{kind}:never-finishes", "two overlapping transfers: a status-block request handler was never removed", wit)
+        return True
+    sh.count(f"threaded_{kind}_transfers")
+    sh.nontrivial(f"T:{kind}:{start}:{length}:{st2}:{ln2}:{case.get('delta')}")
+    for who, struct, b0, ranges in ((("first", spa.struct, B0, [(start, length)] + ([(st2, ln2)] if other is spa else [])),) + ((("second", other.struct, B0b, [(st2, ln2)]),) if other is not spa else ())):
+        after = struct.status_block
+        if len(after) != 1024:
+            sh.violation(f"C01:threaded:{kind}:block-size", f"{who} client block is {len(after)} bytes after two overlapping transfers", wit)
+            continue
+        foreign = [i for i in range(1024) if after[i] != b0[i] and after[i] != S[i]][:8]
+        if foreign:
+            sh.violation(f"C01:threaded:{kind}:foreign-bytes", f"{who} structure: bytes changed to something that is not the spa's value at {foreign}", wit)
+        ins = installs[id(struct)]
+        for a, ln in ranges:
+            # (the simulator answers in whole 39-byte segments: an install may be longer than asked)
+            installed = any(o == a and n >= ln for o, n in ins)
+            part = after[a : a + ln]
+            if installed and part != S[a : a + ln]:
+                sh.violation(f"C01:threaded:{kind}:wrong-bytes", f"{who} structure: range ({a},{ln}) was installed but its bytes differ from the spa's", wit)
+            if part != S[a : a + ln] and part != b0[a : a + ln] and not installed:
+                sh.violation(f"C01:threaded:{kind}:partial-install", f"{who} structure: range ({a},{ln}) is neither the spa's nor untouched", wit)
+            if part != S[a : a + ln]:
+                sh.violation(f"C01:threaded:{kind}:fault-free-failed", f"{who} structure: the fault-free transfer ({a},{ln}) did not bring the spa's bytes", wit)
+    return True
+
+
 def gen(tier, seed):
     r = rng("C01tg", seed, tier)
     cases = []
@@ -194,6 +303,18 @@ def gen(tier, seed):
     for _ in range(30 if tier == "quick" else 2000):
         st = r.choice([0, 256, r.randrange(900)])
         cases.append({"start": st, "length": r.randrange(40, 1025 - st), "fault": {"kind": "random", "p_drop": r.choice([0.02, 0.1, 0.3]), "p_dup": r.choice([0, 0.1]), "max_delay": r.choice([0.03, 0.3])}})
+    # ---- two transfers whose lives overlap: started from a change notification of the first; on a
+    # second client object of the process
+    for _ in range(16 if tier == "quick" else 300):
+        st = r.choice([0, 0, 256, r.randrange(600)])
+        L = r.choice([1024 - st, r.randrange(60, 1025 - st)])
+        st2 = r.choice([r.randrange(1, 900), 275, 512])
+        cases.append({"start": st, "length": L, "fault": none, "nested": (st2, r.randrange(1, 1025 - st2))})
+    for _ in range(16 if tier == "quick" else 300):
+        st = r.choice([0, 0, 256, r.randrange(600)])
+        L = r.choice([1024 - st, r.randrange(200, 1025 - st)])
+        st2 = r.choice([0, r.randrange(0, 900)])
+        cases.append({"start": st, "length": L, "fault": none, "twin": (st2, r.randrange(1, 1025 - st2)), "delta": r.choice([0.0, 0.03, 0.1, 0.25, r.uniform(0, 0.5)])})
     for i, c in enumerate(cases):
         c["id"] = i
     return cases
@@ -207,6 +328,8 @@ def add(run, tier, seed):
     run.need(run.counters.get("threaded_success", 0) > 60 and run.counters.get("threaded_failure", 0) > 2, "threaded structure: too few successful/failed transfers")
     run.need(run.counters.get("threaded_transfers_with_reconfigured_retry_count", 0) >= 6, "threaded structure: retry count never reconfigured at run time")
     run.need(run.counters.get("threaded_follow_up_transfers", 0) >= 6, "threaded structure: no fault-free transfer right after a failed one")
+    run.need(run.counters.get("threaded_nested_transfers", 0) >= 4, "threaded structure: no transfer started from inside a change notification")
+    run.need(run.counters.get("threaded_twin_transfers", 0) >= 4 or run.counters.get("threaded_twin_could_not_connect", 0) > 0, "threaded structure: no overlapping transfers on two client objects")
     fk = run.sets.get("threaded_fault_kinds", set())
     for k in ("none", "drop-seg", "dup-seg", "swap", "drop-req", "dup-req", "dup-req-burst", "drop-last", "blackout", "random"):
         run.need(k in fk, f"threaded structure: fault kind {k} never exercised")
